@@ -84,10 +84,11 @@ PROPS = {
     "C06": k3prop(
         "Emitted code for ${...} in text is proved to append the literal parts unchanged with $$ "
         "un-doubled, each expression converted once; with meta:interpolation off nothing is evaluated.",
-        S_INTERP + S_COMMENT + K2Q + [U('pyvc.frames', 'instance_state', 'instance_state'),
+        S_INTERP + S_COMMENT + K2Q + [K("utils.py::decode_htmlentities"),
+                    U('pyvc.frames', 'instance_state', 'instance_state'),
                     U('bounded.units', 'interp', 'B-INTERP')],
         ["the delimiter search of Interpolator.__call__ (regex + validity loop): bounded stand-in B-INTERP only",
-         "CDATA context (attribute and comment contexts: S-Interp-percent, S-Comment-*)", "entity decoding of the expression text"]),
+         "CDATA context (attribute and comment contexts: S-Interp-percent, S-Comment-*)"]),
     "C07": k3prop(
         "For a dynamic attribute the emitted code is proved to call the escape routine once with the "
         "attribute's own quote character and static text as default, to drop the attribute for None, "
